@@ -17,22 +17,21 @@ An origin is a tuple:
 from .facts import callee_name
 
 DEREF_LIKE = (
-    'std::ops::Deref::deref', 'std::ops::DerefMut::deref_mut',
-    'std::borrow::Borrow::borrow', 'std::borrow::BorrowMut::borrow_mut',
-    'std::convert::AsRef::as_ref', 'std::convert::AsMut::as_mut',
-    'std::string::String::as_str', 'std::string::String::as_mut_str',
-    'once_cell::sync::Lazy::force', 'std::sync::LazyLock::force',
-    'std::convert::identity',
-    'std::option::Option::as_ref', 'std::option::Option::as_mut',
-    'std::option::Option::as_deref', 'std::option::Option::as_deref_mut',
-    'std::vec::Vec::as_slice', 'std::collections::VecDeque::as_slices',
+    'core::ops::deref::Deref::deref', 'core::ops::deref::DerefMut::deref_mut',
+    'core::borrow::Borrow::borrow', 'core::borrow::BorrowMut::borrow_mut',
+    'core::convert::AsRef::as_ref', 'core::convert::AsMut::as_mut',
+    'alloc::string::String::as_str', 'alloc::string::String::as_mut_str',
+    'once_cell::sync::Lazy::force', 'std::sync::lazy_lock::LazyLock::force',
+    'core::convert::identity',
+    'core::option::Option::as_ref', 'core::option::Option::as_mut',
+    'core::option::Option::as_deref', 'core::option::Option::as_deref_mut',
+    'alloc::vec::Vec::as_slice',
 )
 VALUE_LIKE = (
-    'std::clone::Clone::clone', 'std::string::ToString::to_string',
-    'std::borrow::ToOwned::to_owned', 'std::convert::Into::into', 'std::convert::From::from',
-    'std::str::to_string', 'str::to_string', 'std::str::to_owned', 'str::to_owned',
-    'std::option::Option::cloned', 'std::option::Option::copied',
-    'std::string::String::clone',
+    'core::clone::Clone::clone', 'alloc::string::ToString::to_string',
+    'alloc::borrow::ToOwned::to_owned', 'core::convert::Into::into', 'core::convert::From::from',
+    'core::option::Option::cloned', 'core::option::Option::copied',
+    'alloc::str::<impl str>::to_owned', 'alloc::str::<impl str>::to_string',
 )
 
 
